@@ -216,6 +216,7 @@ deriving DecidableEq, Repr
 
 structure Line where
   owner : Option Nat := none   -- ghost: input index the child was processing; none for run notes
+  nl : Bool := true            -- s.endswith('\n'): false only for a last line cut short by the exit
   blank : Bool := false        -- s == "\n"            (`^$`)
   parseNote : Bool := false    -- 'NOTE: tsdb parse: ' in s
   resOpen : Bool := false      -- '(:results .' in s
@@ -393,16 +394,20 @@ structure ReadRes where
   stop : Stop := .done
 deriving Repr
 
-/-- the loop of `_result_lines` over the readable lines; `dying` tells what an exhausted pipe means -/
-def readLines (t : Terminus) (dying : Bool) : List Line → Nat → ReadRes
+/-- the loop of `_result_lines` over the readable lines; `dying` tells what an exhausted pipe means;
+unless `part` (the tsdb callers pass `partial=True`) a line that does not end in a newline is discarded
+(ab63037): it is neither kept nor looked at for the terminus -/
+def readLines (t : Terminus) (dying : Bool) (part : Bool) : List Line → Nat → ReadRes
   | buf, 0 => { rest := buf, stop := .done }
   | [], _ + 1 => { stop := if dying then .eof else .hang }
   | l :: buf, n + 1 =>
     if l.runNote then
-      let r := readLines t dying buf (n + 1)
+      let r := readLines t dying part buf (n + 1)
       { r with notes := l :: r.notes }
+    else if !part && !l.nl then
+      readLines t dying part buf (n + 1)
     else
-      let r := readLines t dying buf (if l.hits t then n else n + 1)
+      let r := readLines t dying part buf (if l.hits t then n else n + 1)
       { r with lines := l :: r.lines }
 
 /-- `_result_lines`: returns the non-empty lines; end of file ⇒ `close()` -/
@@ -410,7 +415,7 @@ def resultLines (c : Cfg) (s : St) : Except Err (List Line × List Line × Bool 
   match termini c with
   | [] => .error .unmodelled
   | t :: ts =>
-    let r := readLines t s.proc.dying s.proc.buf (ts.length + 1)
+    let r := readLines t s.proc.dying (usesTsdb c) s.proc.buf (ts.length + 1)
     let s := { s with proc := { s.proc with buf := r.rest }, runs := applyNotes r.notes s.runs }
     match r.stop with
     | .hang => .error .hang
@@ -455,6 +460,7 @@ structure Resp where
   results : Results := .lines []
   -- ghost
   src : List (Option Nat) := []     -- owners of every line read for this response
+  srcNl : List Bool := []           -- … and whether each of them was a complete line
   eof : Bool := false               -- `_result_lines` saw the end of the stream
   served : Bool := false            -- a live child read the input
   wrote : Option (List Char) := none
@@ -475,7 +481,7 @@ def baseResp (inp : List Char) (run : Nat) (lines allLines : List Line) (eof : B
     warnings := (lines.filter (·.cls == .warning)).map (·.payload),
     errors := (lines.filter (·.cls == .error)).map (·.payload),
     surface := ((lines.filter (·.cls == .surface)).map (·.payload)).getLast?,
-    src := allLines.map (·.owner), eof := eof }
+    src := allLines.map (·.owner), srcNl := allLines.map (·.nl), eof := eof }
 
 /-- the front end's interpretation of the content lines -/
 def decode (c : Cfg) (content : List Line) : Except Err Results :=
